@@ -578,7 +578,7 @@ func (c14) Run(ctx *core.RunCtx) {
 	}
 	// chains that start with a prime of 60 bits and go on with small ones (the margins of lazily reduced sums are
 	// those of the largest prime in use, not of the prime at the level), with keys of many narrow digits
-	steep := ch.Chance("steep-modulus-chain", 1, 8)
+	steep := ch.Chance("steep-modulus-chain", 1, 6)
 	if steep {
 		sp := spec
 		sp.LogQ = []int{60, 30 + ch.Draw("steep-q1", 7), 30 + ch.Draw("steep-q2", 7)}
@@ -643,8 +643,12 @@ func (c14) Run(ctx *core.RunCtx) {
 		if ch.Bool("base2") {
 			in.b2 = 1 + ch.Draw("base2-val", 30)
 		}
-		if steep && ch.Bool("narrow-digits") {
+		if steep && ch.Chance("narrow-digits", 3, 4) {
+			// many narrow digits, at a level above the first prime
 			in.b2 = 4 + ch.Draw("narrow-digit-bits", 5)
+			if in.lq == 0 && params.MaxLevelQ() > 0 {
+				in.lq = 1 + ch.Draw("steep-levelQ", params.MaxLevelQ())
+			}
 		}
 		if in.kind == kCPK {
 			in.lq, in.lp, in.b2 = params.MaxLevelQ(), params.MaxLevelP(), 0
